@@ -2,6 +2,8 @@ package c07
 
 import (
 	"fmt"
+	"reflect"
+	"sort"
 	"strings"
 
 	"github.com/tsawler/tabula/contentstream"
@@ -15,7 +17,7 @@ import (
 
 // nfcTable: NFC is a parameter of the model; the harness supplies x/text's result for every
 // string the implementation could have normalised (each decoding branch applied to data).
-func nfcTable(cm *font.CMap, encName string, data []byte) string {
+func nfcTable(cm *font.CMap, encName string, diffs map[byte]rune, data []byte) string {
 	var pres []string
 	add := func(s string) {
 		for _, p := range pres {
@@ -34,6 +36,9 @@ func nfcTable(cm *font.CMap, encName string, data []byte) string {
 			add(font.DecodeUTF16LE(append([]byte(nil), data[2:]...)))
 		}
 		add(font.GetEncoding(encName).DecodeString(data))
+		if len(diffs) > 0 {
+			add(font.NewCustomEncoding(font.GetEncoding(encName), diffs).DecodeString(data))
+		}
 		add(strings.ToValidUTF8(string(data), "�"))
 	})
 	var parts []string
@@ -48,14 +53,73 @@ func nfcTable(cm *font.CMap, encName string, data []byte) string {
 	return strings.Join(parts, ";")
 }
 
+// diffsField: Font.Differences as the op field `code>rune;...` (hex, sorted by code; "~" = none).
+func diffsField(diffs map[byte]rune) string {
+	if len(diffs) == 0 {
+		return "~"
+	}
+	var cs []int
+	for c := range diffs {
+		cs = append(cs, int(c))
+	}
+	sort.Ints(cs)
+	parts := make([]string, len(cs))
+	for i, c := range cs {
+		parts[i] = fmt.Sprintf("%x>%x", c, diffs[byte(c)])
+	}
+	return strings.Join(parts, ";")
+}
+
+// Font.Differences exists since tabula b3a0e07. The harness reaches the field by name so that
+// it still builds against a tree without it (there a font simply has no differences, and the
+// oracles say what that means for the text).
+func setDifferences(f *font.Font, diffs map[byte]rune) {
+	if len(diffs) == 0 {
+		return
+	}
+	fv := reflect.ValueOf(f).Elem().FieldByName("Differences")
+	if !fv.IsValid() || !fv.CanSet() || fv.Type() != reflect.TypeOf(map[byte]rune(nil)) {
+		return
+	}
+	m := map[byte]rune{}
+	for b, r := range diffs {
+		m[b] = r
+	}
+	fv.Set(reflect.ValueOf(m))
+}
+
+func getDifferences(f *font.Font) map[byte]rune {
+	fv := reflect.ValueOf(f).Elem().FieldByName("Differences")
+	if !fv.IsValid() {
+		return nil
+	}
+	m, _ := fv.Interface().(map[byte]rune)
+	return m
+}
+
+func parseDiffsField(s string) map[byte]rune {
+	if s == "" || s == "~" {
+		return nil
+	}
+	m := map[byte]rune{}
+	for _, p := range strings.Split(s, ";") {
+		var c, r int
+		if _, err := fmt.Sscanf(p, "%x>%x", &c, &r); err == nil {
+			m[byte(c)] = rune(r)
+		}
+	}
+	return m
+}
+
 // fontCase runs (*Font).DecodeString and the same font through text.Extractor.
+// diffs is Font.Differences (nil: the font has no /Differences).
 // want == nil: only the output invariant is checked.
-func fontCase(c *hx.Ctx, prog []byte, hasCMap bool, encName string, data []byte, wantKey string, want *string, ops bool) {
+func fontCase(c *hx.Ctx, prog []byte, hasCMap bool, encName string, diffs map[byte]rune, data []byte, wantKey string, want *string, ops bool) {
 	progHex := "~"
 	if hasCMap {
 		progHex = hx.Hex(prog)
 	}
-	k := kase("font", "prog", progHex, "enc", hx.HexS(encName), "data", hx.Hex(data))
+	k := kase("font", "prog", progHex, "enc", hx.HexS(encName), "diffs", diffsField(diffs), "data", hx.Hex(data))
 	if want != nil {
 		k["want"] = hx.HexS(*want)
 		k["key"] = wantKey
@@ -72,6 +136,7 @@ func fontCase(c *hx.Ctx, prog []byte, hasCMap bool, encName string, data []byte,
 	f := font.NewFont("F1", "Helvetica", "Type1")
 	f.Encoding = encName
 	f.ToUnicodeCMap = cm
+	setDifferences(f, diffs)
 	var got string
 	if p := hx.Safe(func() { got = f.DecodeString(append([]byte(nil), data...)) }); p != "" {
 		c.Check("C07/panic", false, k, func() string { return "Font.DecodeString panicked: " + p })
@@ -79,13 +144,13 @@ func fontCase(c *hx.Ctx, prog []byte, hasCMap bool, encName string, data []byte,
 	}
 	if want != nil {
 		c.Check(wantKey, got == *want, k, func() string {
-			return fmt.Sprintf("Font{ToUnicode:%v, Encoding:%q}.DecodeString(%x) = %s, specified %s", hasCMap, encName, data,
+			return fmt.Sprintf("Font{ToUnicode:%v, Encoding:%q, Differences:%s}.DecodeString(%x) = %s, specified %s", hasCMap, encName, diffsField(diffs), data,
 				scalarsSep(firstNs(got, 16), ","), scalarsSep(firstNs(*want, 16), ","))
 		})
 	}
 	checkOutput(c, "Font.DecodeString", got, k, true)
 	if ops {
-		c.Op(fmt.Sprintf("c07.font %s %s %s %s", progHex, hx.HexS(encName), hx.Hex(data), nfcTable(cm, encName, data)), out(got))
+		c.Op(fmt.Sprintf("c07.font %s %s %s %s %s", progHex, hx.HexS(encName), diffsField(diffs), hx.Hex(data), nfcTable(cm, encName, diffs, data)), out(got))
 	}
 	// the same font registered with the text extractor: BT /F1 12 Tf <data> Tj ET
 	var frag string
@@ -126,7 +191,8 @@ func replayFont(c *hx.Ctx, k map[string]interface{}) {
 		s := string(unhex(w))
 		want = &s
 	}
-	fontCase(c, unhex(k["prog"]), has, string(unhex(k["enc"])), unhex(k["data"]), key, want, false)
+	ds, _ := k["diffs"].(string)
+	fontCase(c, unhex(k["prog"]), has, string(unhex(k["enc"])), parseDiffsField(ds), unhex(k["data"]), key, want, false)
 }
 
 // noFontCase: a Tj with no font selected (showText's font-less path).
@@ -209,7 +275,7 @@ func runFonts(c *hx.Ctx) {
 			sb.WriteString(string(e.text))
 		}
 		want := norm.NFC.String(sb.String())
-		fontCase(c, prog, true, hx.Pick(r, encNames), data, "C07/tounicode-precedence", &want, len(m.entries()) <= 40)
+		fontCase(c, prog, true, hx.Pick(r, encNames), nil, data, "C07/tounicode-precedence", &want, len(m.entries()) <= 40)
 		c.Case("fontcm"+string(data)+string(prog[:min(len(prog), 40)]), true)
 		c.Count("font-tounicode")
 	}
@@ -231,7 +297,7 @@ func runFonts(c *hx.Ctx) {
 		}
 		data = append(data, utf16Bytes(s, be)...)
 		want := norm.NFC.String(string(s))
-		fontCase(c, nil, false, hx.Pick(r, encNames), data, "C07/utf16-bom-decode", &want, true)
+		fontCase(c, nil, false, hx.Pick(r, encNames), nil, data, "C07/utf16-bom-decode", &want, true)
 		c.Case("fontbom"+string(data), n > 0)
 		c.Count("font-bom")
 	}
@@ -253,7 +319,7 @@ func runFonts(c *hx.Ctx) {
 			prog = mutate(r, render(genMapSmall(r), hx.Pick(r, policyForms)))
 			want = nil
 		}
-		fontCase(c, prog, hasCM, enc, data, key, want, true)
+		fontCase(c, prog, hasCM, enc, nil, data, key, want, true)
 		c.Case("fontany"+enc+string(data), len(data) > 0)
 		if enc == "" && !hasCM && !isBOM {
 			c.Count("font-raw-bytes")
